@@ -33,6 +33,11 @@ package sqlc
 //             and by 20 s at every command that reaches a server: a breaker window never holds more than the
 //             requests in flight (at most 5, the cleaner's workers: below the breaker's protection threshold),
 //             so the breaker — whose drops are random — never drops.
+//   instances (round 4) section cfg `inst=<kind>/<exp>/<nf>,...`: SEVERAL CachedConn over the same servers, built by
+//             NewConn (conn), NewNodeConn (node, one server only) or NewConnWithCache over a cache the harness builds
+//             with its own barrier number k (wc<k>), each with its own options. ` i=<n>` sends an op through
+//             instance n; `ctake ... i=a+b` spreads concurrent readers over instances; `insts` prints what the
+//             constructors built (cache.VerifC06Env.Instances: implementation kind, barrier identity per node).
 // After every operation every node's cache is dumped (node/key=value@ttl-ms, sorted).
 
 import (
